@@ -2,6 +2,8 @@ import NanoVerif.Props.C13
 import NanoVerif.Props.C11
 import NanoVerif.Props.C14
 import NanoVerif.Proofs.GlueSvg
+import NanoVerif.Proofs.TrColrToSvg
+import NanoVerif.Generated.Inventory
 /-
 C12 — maximum_color adds colour tables without altering the font.
 The pipeline re-enters nanoemoji with `width = 0` and a per-glyph viewBox `0 0 advance (asc−desc)`
@@ -41,5 +43,35 @@ theorem svg_glue_keeps_glyphs (target : List String) (svg : List (Nat × String)
     (hT : target.Nodup) (hS : (svg.map (·.2)).Nodup) (hsub : ∀ n ∈ svg.map (·.2), n ∈ target)
     (h : copySvgOrder target svg = some res) : res.Perm target :=
   copySvg_perm target svg res hT hS hsub h
+
+
+/-- the placement of a viewBox that IS the glyph's own region (what `generate_svgs_from_colr._view_box` asks for): one unit per unit, the y
+axis flipped, no horizontal shift — for every advance width, zero included. -/
+theorem own_region_placement (region : Rect) (hh : region.h ≠ 0) (p : Pt) :
+    specPlacement region (-region.y) (-(region.h - -region.y)) region.w p = ⟨p.x - region.x, -p.y⟩ := by
+  unfold specPlacement
+  have hs : (-region.y - -(region.h - -region.y)) / region.h = 1 := by
+    rw [show -region.y - -(region.h - -region.y) = region.h by ring]
+    exact div_self hh
+  simp only [hs, Pt.mk.injEq]
+  constructor <;> ring
+
+/-- **C12 (COLR → SVG, placement)**: the transform `colr_to_svg` uses for a glyph whose viewBox is its own region sends the font-space point
+`(X, Y)` to the SVG point `(X + region.x, −Y)`: the SVG table paints exactly where COLR paints, also for zero-advance glyphs. -/
+theorem own_region_is_flip (region : Rect) (V : Aff) (hh : region.h ≠ 0)
+    (h : Tr.map_font_space_to_viewbox region region = .ok V)
+    (hinv : ∀ t, mapViewboxToFontSpace region (-region.y) (-(region.h - -region.y)) region.w Aff.id = .ok t → C06.Invertible t)
+    (X Y : Q) : V.app ⟨X, Y⟩ = ⟨X + region.x, -Y⟩ := by
+  have := TrProofs.map_font_space_to_viewbox_inverts region region V hh h hinv ⟨X + region.x, -Y⟩
+  rw [own_region_placement region hh] at this
+  simpa using this
+
+example : specPlacement ⟨0, -950, 0, 1200⟩ 950 (-250) 0 ⟨186, -310⟩ = ⟨186, 310⟩ := by
+  unfold specPlacement; norm_num
+
+
+/-- tie T: in the current source `generate_svgs_from_colr._view_box` hands `colr_to_svg` the glyph's own region and nothing else — the hypothesis
+under which `own_region_is_flip` speaks about the SVG table maximum_color adds. -/
+theorem view_box_is_region : Gen.VIEW_BOX_IS_GLYPH_REGION = true := by decide
 
 end NanoVerif.C12
